@@ -797,6 +797,91 @@ Proof.
         rewrite Hscan; cbn [rbind]; eapply proto_tail; eauto.
 Qed.
 
+(** * The protobuf round trip of the repaired code (C13-fix-5): no pointer exclusion is left *)
+
+(** A filter value of the column's Go base type (pointer or not): the only requirement that remains. *)
+Definition dyn_typed5 (e : env) (d : desc) (v : dyn) : bool :=
+  match v with
+  | DynNil => true
+  | Dyn b ptr fv =>
+      base_eqb b (d_base d) &&
+      match fv with
+      | FNil => ptr
+      | FVal g => gval_ok e b g
+      end
+  end.
+
+Definition filter_typed5 (e : env) (t : table) (f : filter) : bool :=
+  forallb (fun nv => match find_col (fst nv) t with
+                     | Some d => desc_ok d && dyn_typed5 e d (snd nv)
+                     | None => false
+                     end) f.
+
+Lemma desc_ok_implicit_not_ptr d : desc_ok d = true -> d_ptr d = true -> tag_eqb (d_tag d) TImplicitNull = false.
+Proof.
+  intros Hd Hp. unfold desc_ok in Hd. apply andb_prop in Hd as [_ Hd].
+  destruct (tag_eqb (d_tag d) TImplicitNull); [rewrite Hp in Hd; discriminate|reflexivity].
+Qed.
+
+Lemma norm_dyn_typed e d v : desc_ok d = true -> dyn_typed5 e d v = true -> dyn_typed e d (norm_dyn d v) = true.
+Proof.
+  intros Hd Ht. destruct v as [|b ptr [|g]]; [reflexivity| |].
+  - destruct ptr; exact Ht.
+  - cbn [dyn_typed5] in Ht. apply andb_prop in Ht as [Hb Hg].
+    destruct ptr; cbn [norm_dyn].
+    + destruct (d_ptr d) eqn:Hp; cbn [dyn_typed]; rewrite Hb, Hg; cbn [andb].
+      * rewrite (desc_ok_implicit_not_ptr d Hd Hp). reflexivity.
+      * reflexivity.
+    + cbn [dyn_typed]. rewrite Hb, Hg. reflexivity.
+Qed.
+
+Lemma norm_filter_typed e t f : filter_typed5 e t f = true -> filter_typed e t (norm_filter t f) = true.
+Proof.
+  induction f as [|[n v] f IH]; intros H; [reflexivity|].
+  cbn [filter_typed5 forallb fst snd] in H. apply andb_prop in H as [Hnv H].
+  cbn [norm_filter map filter_typed forallb fst snd].
+  destruct (find_col n t) as [d|] eqn:Hf; [|discriminate]. cbn [fst snd]. rewrite Hf.
+  apply andb_prop in Hnv as [Hd Hty]. rewrite Hd, (norm_dyn_typed e d v Hd Hty). cbn [andb].
+  apply IH. exact H.
+Qed.
+
+Lemma norm_dyn_of d v : norm_dyn d (dyn_of d v) = dyn_of d v.
+Proof. unfold dyn_of, norm_dyn. destruct (d_ptr d); [destruct v; reflexivity|reflexivity]. Qed.
+
+(** What FilterFromProto produces is already in the column's own type. *)
+Lemma from_proto_normal e t : forall p f', filter_from_proto e t p = Ok f' -> norm_filter t f' = f'.
+Proof.
+  induction p as [|[n fld] p IH]; intros f' H; cbn [filter_from_proto] in H.
+  - inv H. reflexivity.
+  - destruct (find_col n t) as [d|] eqn:Hf; [|discriminate].
+    assert (Hk : rbind (scanner e d (field_to_value fld))
+                   (fun v => rbind (filter_from_proto e t p) (fun f => Ok ((n, dyn_of d v) :: f))) = Ok f').
+    { revert H. destruct (field_to_value fld); destruct (d_ptr d); intros H; try discriminate H; exact H. }
+    destruct (scanner e d (field_to_value fld)) as [v|]; [|discriminate]. cbn [rbind] in Hk.
+    destruct (filter_from_proto e t p) as [f0|]; [|discriminate]. cbn [rbind] in Hk. inv Hk.
+    cbn [norm_filter map fst snd]. rewrite Hf, norm_dyn_of. f_equal. apply IH. reflexivity.
+Qed.
+
+Theorem proto_roundtrip5 e t f p :
+  env_laws e -> filter_typed5 e t f = true -> filter_to_proto5 t f = Ok p ->
+  match filter_from_proto e t p with
+  | Err => True
+  | Ok f' => forall row, tester5 t f' row = tester5 t f row
+  end.
+Proof.
+  intros L Ht Hp. unfold filter_to_proto5 in Hp.
+  pose proof (proto_roundtrip e t (norm_filter t f) p L (norm_filter_typed e t f Ht) Hp) as H.
+  destruct (filter_from_proto e t p) as [f'|] eqn:Hf; [|exact I].
+  intros row. unfold tester5. rewrite (from_proto_normal e t p f' Hf). apply H.
+Qed.
+
+(** The three filters of the open findings' kind are no longer ambiguous: a pointer to a zero value on an
+    implicitnull column is NULL on both sides (and then rejected for the non-pointer column). *)
+Lemma valuer5_pointer_to_zero_is_null :
+  valuer5 (mk_desc BBool false TImplicitNull) (Dyn BBool true (FVal (GBool false))) = DNull /\
+  valuer (mk_desc BBool false TImplicitNull) (Dyn BBool true (FVal (GBool false))) = DBool false.
+Proof. split; reflexivity. Qed.
+
 (** * A concrete environment satisfying the laws (floats and times printed as their names) *)
 Definition toy_env : env :=
   mk_env print_Z print_Z print_Z parse_go_int (fun f => f) print_Z print_Z print_Z parse_go_int.
